@@ -268,6 +268,29 @@ def one(seed, i, res):
                 problems.append("assertHasMessage passed for a type that never occurred")
             except AssertionError:
                 pass
+    # values that are not equal to themselves (NaN): the logger holds the very object that was logged, so the first entry does
+    # contain the expected field; a different number does not match
+    nan_logger = MemoryLogger()
+    NAN = float("nan")
+    with eliot.start_action(nan_logger, "t:nanact", ratio=NAN) as na:
+        na.log(message_type="t:nanmsg", ratio=NAN, n=1)
+        na.add_success_fields(loss=NAN)
+    for label, call, expect_ok in (
+            ("message field NaN", lambda: assertHasMessage(tc, nan_logger, "t:nanmsg", {"ratio": NAN}), True),
+            ("message field 1.0", lambda: assertHasMessage(tc, nan_logger, "t:nanmsg", {"ratio": 1.0}), False),
+            ("action fields NaN", lambda: assertHasAction(tc, nan_logger, "t:nanact", True, {"ratio": NAN}, {"loss": NAN}), True),
+            ("action end field 0.5", lambda: assertHasAction(tc, nan_logger, "t:nanact", True, {"ratio": NAN}, {"loss": 0.5}), False)):
+        try:
+            call()
+            passed = True
+        except AssertionError:
+            passed = False
+        except BaseException as e:
+            problems.append("assert helper raised %r for %s" % (e, label))
+            continue
+        if passed != expect_ok:
+            problems.append("assert helper %s for an expectation with %s" % ("passed" if passed else "failed", label))
+        res["counters"]["assert_helper_calls"] = res["counters"].get("assert_helper_calls", 0) + 1
     res["evals"] += 1
     c = res["counters"]
     c["logged_actions_compared"] = c.get("logged_actions_compared", 0) + sum(1 for n, _, _ in nodes if n["kind"] == "action")
